@@ -60,7 +60,11 @@ def _mpi_funcs_inl(prog):
     keep = {"iter_unordered", "_mpi_iter_unordered", "_mpi_root_task", "_mpi_worker_task", "write_patches", "scatter_data_chunk", "chunk_processing_task", "writer_task", "load_patches", "create_patch_centers", "bcast_array", "bcast_instance", "get_bcast_method", "ranks_on_same_node", "world_to_comm_rank", "on_root", "on_worker", "get_size", "use_mpi", "split_into_patches", "get_patch_centers"}
     funcs = _mpi_funcs(prog)
     mpi_ops = ("send", "recv", "bcast", "Bcast", "Barrier", "gather", "Split")
-    has_mpi = {f for f in funcs if any(isinstance(c.func, ast.Attribute) and c.func.attr in mpi_ops for c in calls_in(f))}
+    has_mpi = {
+        f
+        for f in funcs
+        if any((isinstance(c.func, ast.Attribute) and c.func.attr in mpi_ops) or any(k.arg in ("tag", "source", "dest", "root") for k in c.keywords) for c in calls_in(f))
+    }  # (a communicator method handed over as a callable is called with the message keywords)
     out = []
     expanded_names = set()
     for f in funcs:
@@ -410,6 +414,11 @@ def _counting_receiver(prog, res, fi, c, k, tag, sends) -> None:
                 ok_branch = True
     # initial value = number of sending ranks
     init = [v for v in all_def_values(fn, counter) if v is not None and not isinstance(v, ast.BinOp)]
+    if init and isinstance(init[0], ast.Name) and init[0].id not in fi.param_names():
+        # a local that was bound to the parameter (e.g. the binding of an expanded helper)
+        from .common import expand_locals
+
+        init = [expand_locals(fn, init[0], set(fi.param_names()), depth=4)]
     src_param = init[0].id if init and isinstance(init[0], ast.Name) and init[0].id in fi.param_names() else None
     ok_init = False
     callers_checked = 0
@@ -425,6 +434,22 @@ def _counting_receiver(prog, res, fi, c, k, tag, sends) -> None:
                 a = kwarg(cc, param)
                 if a is None and param in pos and pos.index(param) < len(cc.args):
                     a = cc.args[pos.index(param)]
+                if a is None and any(kw.arg is None for kw in cc.keywords):
+                    # keywords collected in a dict and spread into the call: read them from the symbolic store
+                    from .. import symx
+
+                    vals = set()
+                    found = []
+                    try:
+                        for p_ in symx.explore(prog, g, skip_tests=("logger",)):
+                            for ev in p_.calls():
+                                if ev.node is cc and kwarg(ev.expr, param) is not None and unparse(kwarg(ev.expr, param)) not in vals:
+                                    vals.add(unparse(kwarg(ev.expr, param)))
+                                    found.append(kwarg(ev.expr, param))
+                    except symx.TooManyPaths:
+                        found = []
+                    if len(found) == 1:
+                        a = found[0]
                 if a is None:
                     out.append(None)
                 elif isinstance(a, ast.Name) and a.id in g.param_names() and depth > 0:
@@ -481,12 +506,22 @@ def rule_r4(prog, res) -> None:
             continue
         n += 1
         res.touch(fi)
+        # helpers that receive the iterator are looked through (expanded in place)
+        from ..inline import inlined
+
+        orig_fi = fi
+        try:
+            fi = inlined(prog, fi, keep=set(SOURCE_NAMES))
+        except Exception:  # noqa: BLE001
+            fi = orig_fi
+        srcs = [c for c in calls_in(fi) if _is_source_call(prog, fi, c)]
         names = set()
-        for x in walk_no_nested(fi.node):
-            if isinstance(x, ast.Assign) and isinstance(x.targets[0], ast.Name):
-                v = x.value
-                if v in srcs or (isinstance(v, ast.Call) and v.args and isinstance(v.args[0], ast.Name) and v.args[0].id in names):
-                    names.add(x.targets[0].id)
+        for _ in range(3):
+            for x in walk_no_nested(fi.node):
+                if isinstance(x, ast.Assign) and isinstance(x.targets[0], ast.Name):
+                    v = x.value
+                    if v in srcs or (isinstance(v, ast.Call) and v.args and isinstance(v.args[0], ast.Name) and v.args[0].id in names) or (isinstance(v, ast.Name) and v.id in names):
+                        names.add(x.targets[0].id)
         bad = None
         consumed = False
         for x in walk_no_nested(fi.node):
